@@ -29,7 +29,7 @@ PROFILES = {
     "C09": [("ttl", 15), ("seq", 8), ("reads", 5)],
     "C10": [("ttl", 18), ("seq", 8), ("evictrace", 6)],
     "C11": [("burst", 20), ("mix", 8)],
-    "C13": [("shutdown", 15), ("shutrace", 150), ("mix", 4)],
+    "C13": [("shutdown", 10), ("shutrace", 80), ("mix", 3)],
     "C15": [("reads", 14), ("mix", 4)],
     "C16": [("stats", 15), ("allhit", 6), ("mix", 6)],
     "C17": [("boundary", 20), ("evictrace", 14), ("mix", 5), ("pressure", 3), ("ttl", 3)],
@@ -39,7 +39,7 @@ PLANS = {}
 for p in PROFILES:
     PLANS[p] = {
         "mc": {"quick": [MC_L1], "thorough": [MC_L1, MC_L1_NOFIX]},
-        "profiles": {"quick": profs(PROFILES[p], 1), "thorough": profs(PROFILES[p], 8)},
+        "profiles": {"quick": profs(PROFILES[p], 3), "thorough": profs(PROFILES[p], 20)},
         "trace_spec": "TraceCacheD",
         "assumptions": COMMON_ASSUMPTIONS,
         "rule": "a case is one scenario (configuration + caller programs + schedule seed) run under the deterministic scheduler; "
@@ -91,8 +91,8 @@ PLANS["C14"] = {
 PLANS["C18"] = {
     "mc": {"quick": [{"module": "MC_LocksRef", "cfg": "MC_LocksRef", "constants": "reference lock programs (extracted from the unchanged tree and reviewed against the code), 5 thread slots, all interleavings"}],
            "thorough": [{"module": "MC_LocksRef", "cfg": "MC_LocksRef", "constants": "reference lock programs, 5 thread slots, all interleavings"}]},
-    "profiles": {"quick": profs([("mix", 6), ("ttl", 5), ("pressure", 4), ("shutrace", 12), ("reads", 3)], 1),
-                 "thorough": profs([("mix", 8), ("ttl", 6), ("pressure", 5), ("shutrace", 15), ("reads", 5), ("burst", 5), ("boundary", 4)], 6)},
+    "profiles": {"quick": profs([("mix", 6), ("ttl", 5), ("pressure", 4), ("shutrace", 12), ("reads", 3), ("evictrace", 3)], 2),
+                 "thorough": profs([("mix", 8), ("ttl", 6), ("pressure", 5), ("shutrace", 15), ("reads", 5), ("burst", 5), ("boundary", 4), ("evictrace", 4)], 12)},
     "stress": {"quick": [{"rounds": 30, "threads": 4, "ops": 400}], "thorough": [{"rounds": 400, "threads": 6, "ops": 600, "timeout_ms": 30000}]},
     "locks": True,
     "hang_is_violation": True,
